@@ -235,6 +235,10 @@ def mkphi(cond, a, b):
         return Seq(a.kind, [mkphi(cond, x, y) for x, y in zip(a.items, b.items)], a.ident)
     if key(a) == key(b):
         return a
+    if isinstance(cond, Cond) and cond.tree[0] == "cmp" and cond.tree[1] == "in" and isinstance(cond.tree[2], Const) and isinstance(cond.tree[3], Opaque) \
+            and isinstance(a, Opaque) and a.text == "%s[%r]" % (cond.tree[3].text, cond.tree[2].v):
+        # `o[k] if k in o else d` is the value of key k after `{k: d}.update(o)`
+        return OverrideV(cond.tree[3], cond.tree[2].v, b)
     return Phi(cond, a, b)
 
 
@@ -1109,6 +1113,14 @@ class Evaluator:
         res = []
         for op, r in zip(n.ops, n.comparators):
             right = self.expr(r, st)
+            if isinstance(op, (ast.In, ast.NotIn)) and isinstance(right, Opaque) and right.cls is not None and right.kind in ("new", "obj"):
+                m = self.P.method(right.cls, "__contains__")
+                if m is not None:
+                    # membership in an object of the package is what its __contains__ returns
+                    t = self.truth(self.call_closure(Closure(m, None, selfv=right), [left], {}, st, n))
+                    res.append(cnot(t) if isinstance(op, ast.NotIn) else t)
+                    left = right
+                    continue
             res.append(self.compare(OPN[type(op)], left, right))
             left = right
         if len(res) == 1:
@@ -1174,6 +1186,9 @@ class Evaluator:
             if isinstance(a, Const) and isinstance(b, Const) and isinstance(a.v, str) and isinstance(b.v, str):
                 r = a.v in b.v
                 return Const(r if op == "in" else not r)
+            if isinstance(b, DictV) and isinstance(a, Const) and b.fallback is not None and not b.items:
+                # a dict that only holds what an unknown mapping `o` put into it: membership is membership in o
+                return Cond(("cmp", op, a, Opaque(b.fallback, kind="obj")))
             return Cond(("cmp", op, a, b))
         if isinstance(a, Const) and isinstance(b, Const) and not isinstance(a.v, (int, float)) and not isinstance(b.v, (int, float)):
             try:
@@ -1495,6 +1510,11 @@ class Evaluator:
                 return r
         if isinstance(idx, Phi) and _phi_size(idx) <= 8:
             return mkphi(idx.cond, self.getitem(base, idx.a, st), self.getitem(base, idx.b, st))
+        if isinstance(base, Opaque) and base.cls is not None and base.kind in ("new", "obj") and st is not None:
+            m = self.P.method(base.cls, "__getitem__")
+            if m is not None:
+                # subscripting an object of the package runs its __getitem__
+                return self.call_closure(Closure(m, None, selfv=base), [idx], {}, st)
         ic = num_const(idx)
         if isinstance(base, Cat) and ic is not None and ic.denominator == 1 and int(ic) in (0, -1):
             part = base.parts[0] if int(ic) == 0 else base.parts[-1]
@@ -1854,6 +1874,8 @@ class Evaluator:
             frames = self.__dict__.setdefault("_rec_frames", [])
             if any(isinstance(a, (DictV, Seq)) for a in list(args) + list(kwargs.values())) and sig not in frames and sum(1 for x in self.stack if x is f) < 6:
                 reentry = False
+            elif getattr(self, "rec_limit", 0) and sig not in frames and sum(1 for x in self.stack if x is f) < self.rec_limit:
+                reentry = False  # instance evaluation (opt-in): recursion over a small concrete structure is simply followed
         if len(self.stack) >= self.max_depth or reentry:
             st.events.append(("call-noinline", f.qual, [key(a) for a in args], node))
             return Opaque("%s(%s)" % (f.qual, ", ".join(key(a) for a in args)))
@@ -1881,9 +1903,13 @@ class Evaluator:
         for n in f.node.body:
             if isinstance(n, ast.Nonlocal):
                 st.env.nonlocals |= set(n.names)
-        r = self.block(self._generator_body(f) or f.node.body, st, [])
+        gb = self._generator_body(f)
+        r = self.block(gb or f.node.body, st, [])
         if r is None:
             return NONE
+        if gb is not None and isinstance(r.value, Seq):
+            # what a generator yields, as a fresh list marked as an iterator (next() may consume it)
+            return Seq(r.value.kind, list(r.value.items), ident="A:gen@%s" % getattr(f.node, "lineno", 0))
         return r.value
 
     def _generator_body(self, f):
@@ -1980,6 +2006,13 @@ class Evaluator:
         short = name.split(".")[-1]
         if name in ("functools.partial", "partial") and args:
             return PartialV(args[0], list(args[1:]), dict(kwargs))
+        if name == "next" and 1 <= len(args) <= 2 and not kwargs and isinstance(args[0], Seq) and (args[0].ident or "").startswith("A:gen"):
+            # a generator evaluated eagerly into the list of what it yields, used as an iterator: next() takes the first
+            if args[0].items:
+                return args[0].items.pop(0)
+            if len(args) == 2:
+                return args[1]
+            return Opaque("<StopIteration>", kind="raise")
         if name == "slice" and 1 <= len(args) <= 3 and not kwargs:
             a = [None if (isinstance(x, Const) and x.v is None) else x for x in args]
             if len(a) == 1:
@@ -2270,6 +2303,8 @@ class Evaluator:
                 return Seq(recv.kind, recv.items, ident="A:copy")
             if name in ("sort", "reverse"):
                 st.events.append(("seq-" + name, recv.ident or key(recv), list(args), dict(kwargs), node))
+                if name == "reverse" and not args and not kwargs:
+                    recv.items.reverse()  # a list of known items is reversed in place
                 return NONE
             if name == "index" or name == "count":
                 return Num.atom("%s.%s(%s)" % (key(recv), name, ", ".join(key(a) for a in args)))
@@ -2935,6 +2970,35 @@ class Evaluator:
     def while_loop(self, s, st):
         class _T:
             pass
+
+        if getattr(self, "unroll_while", False) and not s.orelse:
+            # instance evaluation (opt-in): a loop whose test folds to a constant on every pass is simply run (bounded)
+            bk = st.fork()
+            ok = True
+            result = None
+            for _ in range(64):
+                c = self.cond(s.test, st)
+                if not isinstance(c, Const):
+                    ok = False
+                    break
+                if not c.v:
+                    break
+                r = self.block(s.body, st, [])
+                if r is not None:
+                    if r.value is CONTINUE:
+                        continue
+                    if r.value is BREAK:
+                        break
+                    if _only_loop_exits(r.value):
+                        ok = False
+                        break
+                    result = r
+                    break
+            else:
+                ok = False
+            if ok:
+                return result
+            st.env, st.heap, st.events, st.havoc = bk.env, bk.heap, bk.events, bk.havoc
 
         fake = ast.For(target=ast.Name(id="_", ctx=ast.Store()), iter=s.test, body=s.body, orelse=[], lineno=s.lineno, col_offset=0)
         assigned = self.assigned_in(s.body)
